@@ -524,4 +524,34 @@ func containerChecks(c *evid.Ctx, evals, nontriv *int64) {
 	zipChecks(c, evals, nontriv, ml)
 	twoContainers(c, evals, nontriv, ml)
 	smBase(c, evals, nontriv)
+	// interference between two uses of the codec, per pack type (typical object vs constructor object,
+	// and vs the typical object of the next type)
+	for i := range packs.Registry {
+		t := &packs.Registry[i]
+		nt := &packs.Registry[(i+1)%len(packs.Registry)]
+		a, _ := packs.Assignment{Type: t, Base: 1, Dev: map[string]int{}}.Build()
+		b0, _ := packs.Assignment{Type: t, Base: 0, Dev: map[string]int{}}.Build()
+		b1, _ := packs.Assignment{Type: nt, Base: 1, Dev: map[string]int{}}.Build()
+		for _, b := range []interface{}{b0, b1} {
+			atomic.AddInt64(evals, 1)
+			atomic.AddInt64(nontriv, 1)
+			packs.Interference(c, "C03", t.Name, a, b,
+				func(o interface{}) []byte {
+					bs, err := packs.Encode(o)
+					if err != nil {
+						return nil
+					}
+					return bs
+				},
+				func(bs []byte) interface{} {
+					in := gio.NewDataInputX(bs)
+					var out interface{}
+					func() {
+						defer func() { recover() }()
+						out = pack.ReadPack(in)
+					}()
+					return out
+				})
+		}
+	}
 }
